@@ -88,6 +88,26 @@ impl Payload {
         matches!(self.leaf, Leaf::OptSel { .. })
     }
 
+    /// A value of the same type and the same serialized size but different content (for byte vectors and
+    /// strings also a different length, where the padding leaves room). Used to rewrite a mapped file in place.
+    pub fn sibling(&self) -> Payload {
+        let bump = |c: &Content, shrink: bool| {
+            let len = if shrink && c.len > 0 && c.len % 8 != 1 { c.len - 1 } else { c.len };
+            Content { len, pat: if c.pat == Pat::Random { Pat::Counter } else { Pat::Random }, salt: c.salt.wrapping_add(1) }
+        };
+        let leaf = match &self.leaf {
+            Leaf::VecU64(c) => Leaf::VecU64(bump(c, false)),
+            Leaf::VecUsize(c) => Leaf::VecUsize(bump(c, false)),
+            Leaf::VecPair(c) => Leaf::VecPair(bump(c, false)),
+            Leaf::Bytes(c) => Leaf::Bytes(bump(c, true)),
+            Leaf::Str(c) => Leaf::Str(bump(c, true)),
+            Leaf::Raw { c, .. } => Leaf::Raw { c: bump(c, false), route: 0 },
+            Leaf::Int { c, width } => Leaf::Int { c: bump(c, false), width: *width },
+            other => other.clone(),
+        };
+        Payload { leaf, opt: self.opt, none_at: self.none_at }
+    }
+
     pub fn describe(&self) -> String {
         let mut s = String::new();
         for k in 0..self.opt {
@@ -164,7 +184,8 @@ fn gen_leaf(rng: &mut Rng, cfg: &GenCfg) -> Leaf {
             12 => Leaf::Sel(gen_bits(rng, m * 8)),
             13 => Leaf::SelZ(gen_bits(rng, m * 8)),
             14 | 15 => {
-                let stride = match rng.below(6) { 0 | 1 | 2 => 1, 3 => rng.range_usize(2, 100), 4 => 1 << rng.range(8, 20), _ => 1 << rng.range(20, 40) };
+                // usize::MAX is a sentinel: the universe is the largest possible one (usize::MAX or a few below).
+                let stride = match rng.below(7) { 0 | 1 | 2 => 1, 3 => rng.range_usize(2, 100), 4 => 1 << rng.range(8, 20), 5 => 1 << rng.range(20, 40), _ => usize::MAX };
                 Leaf::Sparse { c: gen_bits(rng, m * 2), stride, multiset: rng.chance(1, 3) }
             },
             16 | 17 => {
@@ -291,6 +312,7 @@ impl Leaf {
             },
             Leaf::Sparse { c, stride, multiset } => {
                 if *stride != 1 { out.push(Leaf::Sparse { c: c.clone(), stride: 1, multiset: *multiset }); }
+                if *stride == usize::MAX { out.push(Leaf::Sparse { c: c.clone(), stride: 1 << 30, multiset: *multiset }); }
                 if *multiset { out.push(Leaf::Sparse { c: c.clone(), stride: *stride, multiset: false }); }
             },
             Leaf::Rl { c, scale, route } => {
@@ -338,7 +360,7 @@ fn sample_points(n: usize) -> Vec<usize> {
     for x in [0usize, 1, 2, 62, 63, 64, 65, 127, 128, 511, 512, 513, 4095, 4096, 4097] {
         if x < n { v.push(x); }
     }
-    for k in 1..=16 { v.push((n - 1) * k / 16); }
+    for k in 1..=16u128 { v.push(((n as u128 - 1) * k / 16) as usize); }
     for x in [n - 1, n.saturating_sub(2), n.saturating_sub(64), n.saturating_sub(65)] { if x < n { v.push(x); } }
     v.sort_unstable();
     v.dedup();
@@ -864,6 +886,15 @@ pub fn sparse_positions(c: &Content, stride: usize, multiset: bool) -> (usize, V
     let base = c.positions();
     // Without set bits the format spends universe / 2 bits on buckets: keep the universe small then.
     let stride = if base.is_empty() { 1 } else { stride };
+    if stride == usize::MAX && c.len > 0 {
+        // The largest universes there are; positions spread over the whole range, the last one near the end.
+        let universe = usize::MAX - (c.salt as usize % 3);
+        let step = universe / c.len;
+        let mut pos: Vec<usize> = base.iter().map(|p| p * step).collect();
+        if let Some(last) = pos.last_mut() { if c.salt % 2 == 0 { *last = universe - 1; } }
+        if multiset { if let Some(first) = pos.first().cloned() { pos.insert(0, first); } }
+        return (universe, pos);
+    }
     let universe = c.len * stride;
     let mut pos = Vec::with_capacity(base.len());
     for (i, p) in base.iter().enumerate() {
